@@ -17,7 +17,7 @@ R.contract("PeerConnection.__dispatch_message#gate", params={"self": "PeerConnec
                      "self.g_handled == old(self.g_handled) + [msg])" % (READY, READY_WAITING_DWA, DISCONNECTING)),
                     ("otherwise-handed-to-the-node-exactly-once",
                      "self.g_handled == old(self.g_handled) or self.g_handled == old(self.g_handled) + [msg]")],
-           raises=[], ghost_modifies=["self.g_handled"], props=["C06", "C08", "C09"])
+           raises=[], ghost_modifies=["self.g_handled"], props=["C06", "C08", "C09", "C12"])   # C12: a DPR that crosses ours is still handled
 
 
 # ---- the outcome cases of the capabilities exchange --------------------------------------------------------------
